@@ -35,6 +35,9 @@ struct Shared {
     step: AtomicUsize,
     script: Mutex<Vec<(i64, Action, i64)>>,
     latency_ns: AtomicI64,
+    /// CLOCK_REALTIME = T0 + monotonic + this offset; the offset jumps when the wall clock is stepped.
+    real_offset_ns: AtomicI64,
+    rt_steps: Mutex<Vec<i64>>,
     socket: Mutex<Option<UnixDatagram>>,
     mode: Mutex<Action>,
     stop: AtomicBool,
@@ -147,7 +150,7 @@ pub fn run(a: &Args) -> Value {
         return json!({"inconclusive": "not inside the private /run namespace (marker /var/run/chrony/.verif-private missing)", "evaluations": 0, "violations": []});
     }
     let with_silent = a.map.get("silent").map(|s| s == "1").unwrap_or(false);
-    let sh = Arc::new(Shared { mono_ns: AtomicI64::new(0), latency_ns: AtomicI64::new(0), step: AtomicUsize::new(0), script: Mutex::new(Vec::new()), socket: Mutex::new(None), mode: Mutex::new(Action::Answer), stop: AtomicBool::new(false), coarse_reads: AtomicUsize::new(0) });
+    let sh = Arc::new(Shared { mono_ns: AtomicI64::new(0), latency_ns: AtomicI64::new(0), real_offset_ns: AtomicI64::new(0), rt_steps: Mutex::new(Vec::new()), step: AtomicUsize::new(0), script: Mutex::new(Vec::new()), socket: Mutex::new(None), mode: Mutex::new(Action::Answer), stop: AtomicBool::new(false), coarse_reads: AtomicUsize::new(0) });
     // Virtual clock: every CLOCK_MONOTONIC_COARSE read of a virtual thread starts the next step.
     {
         let sh = sh.clone();
@@ -160,6 +163,8 @@ pub fn run(a: &Args) -> Value {
                     drop(script);
                     sh.mono_ns.store(t, Ordering::SeqCst);
                     sh.latency_ns.store(lat, Ordering::SeqCst);
+                    let step = sh.rt_steps.lock().unwrap().get(k).cloned().unwrap_or(0);
+                    sh.real_offset_ns.fetch_add(step, Ordering::SeqCst);
                     *sh.mode.lock().unwrap() = act;
                     match act {
                         Action::Vanish => {
@@ -173,7 +178,7 @@ pub fn run(a: &Args) -> Value {
                     }
                 }
             }
-            let v = if clk == libc::CLOCK_REALTIME { T0_REAL_S * NS as i64 } else { sh.mono_ns.load(Ordering::SeqCst) };
+            let v = if clk == libc::CLOCK_REALTIME { T0_REAL_S * NS as i64 + sh.mono_ns.load(Ordering::SeqCst) + sh.real_offset_ns.load(Ordering::SeqCst) } else { sh.mono_ns.load(Ordering::SeqCst) };
             (v.div_euclid(NS as i64), v.rem_euclid(NS as i64))
         }));
     }
@@ -197,6 +202,10 @@ pub fn run(a: &Args) -> Value {
         let (t_start, script) = gen_script(&mut rng, with_silent);
         distinct.insert(format!("{:?}", script));
         *sh.script.lock().unwrap() = script.clone();
+        // The wall clock is stepped now and then (chronyd makestep, VM resume): the grace period is
+        // a matter of elapsed (monotonic) time only.
+        *sh.rt_steps.lock().unwrap() = (0..script.len()).map(|_| match rng.below(10) { 0 => -60_000_000_000, 1 => 4_000_000_000, 2 => -4_000_000_000, 3 => 3_600_000_000_000, _ => 0 }).collect();
+        sh.real_offset_ns.store(0, Ordering::SeqCst);
         sh.step.store(0, Ordering::SeqCst);
         sh.mono_ns.store(t_start, Ordering::SeqCst);
         if std::fs::metadata(SOCK).is_err() {
